@@ -33,11 +33,11 @@ CLAIMED = {
  "C10": dict(technique="must-pass-through store analysis of GroupedQuantity::add / GroupedValue::add, field-coverage of readers, insert-result usage, lineage of the listing pipeline",
              text="Decides that no path through the grouping functions drops its argument, that every reader of a grouped quantity covers all four stores, that quantity-map inserts cannot silently overwrite (one reviewed finding), that a text value can never be stored into a running total, and that totals are built from the definition plus its referenced_from entries, definitions only, listed-only, keyed by display name. Numerical sums and fit() are not decided.",
              ref="DESIGN.md §5 C10"),
- "C11": dict(technique="C03 inventories restricted to the aisle module + lookup/insert pairing by dominance and key-expression equality + span formula shape",
-             text="Partial: decides the totality clause (reviewed failure sites, arithmetic and loops of the aisle parser/writer), that each insertion into a duplicate-detection set is confined to the not-found outcome of a lookup of the same key with the stored value trimmed like the checked one, and that error spans are pointer offsets of sub-slices of the input. Lookup: every IngredientInfo takes the first name of its line as common name, the enclosing category, and is stored under the iterated name. The write/parse round trip is not decided.",
+ "C11": dict(technique="C03 inventories restricted to the aisle module + lookup/insert pairing by dominance and key-expression equality + span formula shape + value lineage of the lookup map + writer/reader delimiter agreement from decoded format templates",
+             text="Partial: decides the totality clause (reviewed failure sites, arithmetic and loops of the aisle parser/writer), that each insertion into a duplicate-detection set is confined to the not-found outcome of a lookup of the same key with the stored value trimmed like the checked one, and that error spans are pointer offsets of sub-slices of the input. Lookup: every IngredientInfo takes the first name of its line as common name, the enclosing category, and is stored under the iterated name. The writer's delimiters and line ends are exactly what the parser strips and splits on (a necessary condition of the round trip); the round trip itself is not decided.",
              ref="DESIGN.md §5 C11"),
- "C12": dict(technique="rational-function identity between the writer (new_approx) and the reader (Number::value) + edge-dominance of every Some(Fraction) by its limit checks",
-             text="Partial: decides that value() of every fraction new_approx can return is the approximated input as a symbolic identity, that each returned fraction is dominated by the positive/finite, whole<=max_whole and |err|<=accuracy*value tests, that the fractional part comes from the max_den-bounded lookup, and that configured limits are clamped. Nearest-fraction choice and all numerics are not decided.",
+ "C12": dict(technique="rational-function identity between the writer (new_approx) and the reader (Number::value) + edge-dominance of every Some(Fraction) by its limit checks + format templates of Display decoded from MIR constants + shape of the lookup-table constructor",
+             text="Partial: decides that value() of every fraction new_approx can return is the approximated input as a symbolic identity, that each returned fraction is dominated by the positive/finite, whole<=max_whole and |err|<=accuracy*value tests, that the fractional part comes from the max_den-bounded lookup, that configured limits are clamped, that the printed forms are exactly `w`, `n/d`, `w n/d` with a component omitted only when it is zero, and that the table holds numerators 1..den keyed by n/d. Nearest-fraction choice and all numerics are not decided.",
              ref="DESIGN.md §5 C12"),
  "C09": dict(technique="data check of the shipped unit table against an independent reference + rational-function shape analysis of the conversion formula on MIR + guard dominance + argument lineage",
              text="Decides: units.toml (and the constants compiled from it) agree with the international unit definitions; convert_f64 is the affine formula with from/to in the right roles as a rational function; range ends are both converted; conversion is dominated by the same-quantity test and convert_impl fails before mutating; best units come from the designated list of the requested system; SI-prefixed units are the base unit scaled by the prefix and are regenerated whole when a layer edits the base. Threshold selection, float tolerance and fraction bookkeeping are not decided.",
